@@ -973,6 +973,14 @@ func init() {
 			}
 			return ex.indexSub(s, sub)
 		},
+		"bytes.TrimSpace": func(ex *Exec, fn *ssa.Function, args []Value, caller *Frame) Value {
+			// ASCII white space (as strings.TrimSpace here): a multi-byte
+			// Unicode space at either end is outside the stub, the native
+			// replay of every path would show the difference
+			sl, _ := args[0].(Slice)
+			cs := "\t\n\v\f\r "
+			return ex.strToBytes(ex.trimLeftStr(ex.trimRightStr(ex.bytesToStr(sl), cs), cs))
+		},
 		"strings.IndexByte": func(ex *Exec, fn *ssa.Function, args []Value, caller *Frame) Value {
 			s := strArg(ex, args[0], "strings.IndexByte")
 			c := args[1].(*Term)
